@@ -1406,6 +1406,13 @@ theorem triParts_spec (rate l c r : ℝ) (W : ℕ) (half analytic : Bool) :
 noncomputable def docFbank (l c r f : ℝ) : ℝ :=
   Real.sqrt (docTri (mel_h2s l) (mel_h2s c) (mel_h2s r) (mel_h2s f))
 
+/-- clamping at zero before the square root changes nothing over the reals (`Real.sqrt` is 0 on negative numbers): the
+clamp in the source only guards against a floating-point value a hair below zero at an outer vertex -/
+theorem sqrt_max_zero (v : ℝ) : Real.sqrt (max v 0) = Real.sqrt v := by
+  rcases le_total v 0 with h | h
+  · rw [max_eq_right h, Real.sqrt_zero, Real.sqrt_eq_zero_of_nonpos h]
+  · rw [max_eq_left h]
+
 theorem fbankParts_spec (rate l c r : ℝ) (W : ℕ) (half analytic : Bool) :
     PartsSpec (fbankParts rate l c r W half analytic) rate l r W half analytic
       (fun f => Real.sqrt (fbank_val f l c r)) where
@@ -1416,7 +1423,11 @@ theorem fbankParts_spec (rate l c r : ℝ) (W : ℕ) (half analytic : Bool) :
   lo := by simp [fbankParts, fbank_loop_lo]
   hi := by simp [fbankParts, fbank_loop_hi]
   mirror := by simp [fbankParts, fbank_mirror]
-  val := fun k => by simp [fbankParts, fbank_written, fbank_bin_hz]
+  val := fun k => by
+    simp only [fbankParts, fbank_written, fbank_bin_hz, transc_sqrt]
+    first
+      | rfl
+      | (rw [show ((0.0 : ℝ)) = 0 by norm_num, sqrt_max_zero])
 
 /-- **tri_is_triangle**: for vertices `0 ≤ l < c < r ≤ rate/2` and every DFT width `W ≥ 1`,
 `get_frequency_response` raises nothing and equals the documented triangle (linear in Hz) at every bin;
